@@ -160,6 +160,29 @@ func c11Docs(thorough bool) []planDoc {
 			docs = append(docs, planDoc{Title: E, Tasks: tasks})
 		}
 	}
+	// `after` lists that repeat a title with another one in between (and adjacent, and three times): every sequence of
+	// length 3 over the other two titles, for the last and for the first task of a three-task document
+	for _, pos := range []int{2, 0} {
+		tt := []string{"a", "b", "c"}
+		var dom []string
+		for k := range tt {
+			if k != pos {
+				dom = append(dom, tt[k])
+			}
+		}
+		for m := 0; m < 8; m++ {
+			af := []string{dom[m&1], dom[(m>>1)&1], dom[(m>>2)&1]}
+			var tasks []planTask
+			for k := range tt {
+				t := planTask{Title: sp(tt[k])}
+				if k == pos {
+					t.After = af
+				}
+				tasks = append(tasks, t)
+			}
+			docs = append(docs, planDoc{Title: E, Tasks: tasks})
+		}
+	}
 	// bodies and epic title/body variants on a base document
 	bodies := []*string{nil, sp("text"), sp(" \n"), sp("line1\nline2 \"q\" \\ <b>&\n"), sp("日本語 \U0001F600 é")}
 	for _, eb := range bodies {
@@ -408,6 +431,6 @@ func runC11(env *core.Env) {
 		"states":            len(pres), "transitions": evals, "traces_validated_against_impl": validated, "samples": samples.list,
 		"exhaustive": env.TimeLeft(), "documents": len(docs) + len(c11Raw), "accepted": acc, "rejected": rej, "outcome_classes": cls,
 		"unconfirmed_candidates": unconfirmed.Load(),
-		"bound":                  "all plan documents with 1-2 tasks over title variants {distinct, duplicate, case variant, trailing space, blank, missing, NFC/NFD} x `after` multisets (<=2) over {other, own, dangling, empty, case variant, trailing-space variant}; all 3-task documents with `after` multisets over the other two titles (every relation incl. cyclic) for distinct and duplicate titles; thorough: all 4096 relations on 4 tasks; body/epic-title variants; 22 structurally invalid payloads + a valid document followed by each of 20 stray tokens (4 separators) or preceded by each of 9; x 5 pre-stores (empty, rich, legacy file name, 2 torn tails)",
+		"bound":                  "all plan documents with 1-2 tasks over title variants {distinct, duplicate, case variant, trailing space, blank, missing, NFC/NFD} x `after` multisets (<=2) over {other, own, dangling, empty, case variant, trailing-space variant}; all 3-task documents with `after` multisets over the other two titles (every relation incl. cyclic) for distinct and duplicate titles; `after` sequences of length 3 that repeat a title with another in between; thorough: all 4096 relations on 4 tasks; body/epic-title variants; 22 structurally invalid payloads + a valid document followed by each of 20 stray tokens (4 separators) or preceded by each of 9; x 5 pre-stores (empty, rich, legacy file name, 2 torn tails)",
 	}, []string{"reference model: literal reading of the property (unique non-blank titles, after names another task, acyclic)"})
 }
